@@ -7,8 +7,9 @@ META = dict(
               "blocked sends, short / delayed receives) of real TcpServerStack + TcpClientStack over socket doubles; "
               "stream invariants checked after every service step",
     text="A real TcpServerStack and a real TcpClientStack are connected over socket doubles; 0-3 packets of 1-3 distinct "
-         "bytes are queued in each direction (quick: 15 shape pairs, thorough: 120), plus shared-packet cases (quick 6, thorough "
-         "28): one Packet instance transmitted twice in a row, and one Packet instance transmitted to two connected clients; "
+         "bytes are queued in each direction (quick: 15 shape pairs, thorough: 120), plus shared-packet cases (quick 7, thorough "
+         "30): one Packet instance transmitted twice in a row, and one Packet instance transmitted to two connected clients "
+         "which both also send their own packets to the server (each must come out attributed to its own connection); "
          "the transmitted Packet objects must keep their .packed. The driver then services the two stacks "
          "step by step with the same calls serviceAll() makes, except that it drains .rxPkts itself; which stack is serviced "
          "next (default: alternate) and every answer of the two connection sockets (send: any partial count, would-block; "
@@ -25,6 +26,7 @@ from mc import core, net
 
 PORT = 7000
 ALPHA = b"abcdefghi"
+DIGITS = b"123456789"         # payload bytes of the second client
 BETA = b"ABCDEFGHI"
 QUICK_SHAPES = [(), (2,), (1, 2), (3, 1, 2)]
 BOUND = dict(quick=2, thorough=3)
@@ -59,11 +61,12 @@ def shape_pairs(tier):
 def shared_cases(tier):
     """The same Packet instance referenced by more than one pending transmit."""
     if tier == "quick":
-        sshapes = [((), (2,)), ((), (3, 1)), ((2,), (2, 1))]
+        sshapes = [((), (2,)), ((), (3, 1)), ((2,), (2, 1)), ((1, 2), ())]
     else:
         import itertools
-        sshapes = [((), b) for n in (1, 2) for b in itertools.product((1, 2, 3), repeat=n)] + [((2,), (2, 1)), ((1, 2), (3,))]
-    return [(a, b, m) for m in ("resend", "broadcast") for a, b in sshapes]
+        sshapes = [((), b) for n in (1, 2) for b in itertools.product((1, 2, 3), repeat=n)] + [((2,), (2, 1)), ((1, 2), (3,)),
+                                                                                                  ((1, 2), ()), ((3, 1, 2), ())]
+    return [(a, b, m) for m in ("resend", "broadcast") for a, b in sshapes if b or m == "broadcast"]
 
 
 def fresh_pairs(tier):
@@ -108,8 +111,9 @@ def execute(ch, cshape, sshape, part, states, mode="fresh"):
     """One schedule.  Returns None or (kind, what, log, fn).
     mode "fresh": one client, a fresh Packet per transmit.
     mode "resend": one client; the first packet of each direction is ONE Packet instance transmitted twice in a row.
-    mode "broadcast": two clients; every server packet is ONE Packet instance transmitted to both peers; the
-    client->server packets come from the first client."""
+    mode "broadcast": two clients connected at the same time; every server packet is ONE Packet instance
+    transmitted to both peers; BOTH clients transmit the client->server shape (first: letters, second: digits,
+    sizes reversed), and the server must attribute every packet to the connection it arrived on."""
     S, P = M["stacking"], M["packeting"]
     fn = net.FakeNet(chooser=ch)
     FSM.net = fn
@@ -140,7 +144,8 @@ def execute(ch, cshape, sshape, part, states, mode="fresh"):
         csocks = [cs.handler.cs for cs in clients]
         ssocks = [ix.cs for ix in ixs]
         made = []              # (Packet, payload it was created with): the caller's objects must stay intact
-        ctotals = [b"".join(cq)] + [b""] * (nclients - 1)
+        cq2 = payloads(tuple(reversed(cshape)), DIGITS) if nclients == 2 else []   # second client: own contents
+        ctotals = [b"".join(cq), b"".join(cq2)][:nclients]
         stotals = [b"".join(sq)] * nclients
         prev = None
         for k, d in enumerate(cq):
@@ -149,6 +154,10 @@ def execute(ch, cshape, sshape, part, states, mode="fresh"):
             if not (mode == "resend" and k == 1):
                 made.append((pk, d))
             clients[0].transmit(pk)
+        for d in cq2:
+            pk = P.Packet(stack=clients[1], packed=d)
+            made.append((pk, d))
+            clients[1].transmit(pk)
         prev = None
         for k, d in enumerate(sq):
             pk = prev if (mode == "resend" and k == 1) else P.Packet(stack=ss, packed=d)
@@ -163,7 +172,7 @@ def execute(ch, cshape, sshape, part, states, mode="fresh"):
         crx = [[] for _ in clients]      # packets delivered to each client application
         srx = [[] for _ in clients]      # packets delivered to the server application, per connection
         nsides = nclients + 1
-        horizon = nsides * (len(cq) + len(sq) * nclients + ch_bound(ch) + 3)
+        horizon = nsides * (len(cq) + len(cq2) + len(sq) * nclients + ch_bound(ch) + 3)
         names = ["client"] if nclients == 1 else ["0client", "1client"]
         names.append("server")
         turn = 0
@@ -291,7 +300,8 @@ def work(pair, replay=None):
                                                                   "".join(x[0] for x in log) or "-", ",".join(answers) or "-"),
                         "%sTcpClientStack -> %s, TcpServerStack -> %s: %s" % (
                             dict(fresh="", resend="first packet of each direction is one Packet instance transmitted twice; ",
-                                 broadcast="two clients, each server packet is one Packet instance transmitted to both; ")[mode],
+                                 broadcast="two clients (the second sends %s), each server packet is one Packet instance transmitted to "
+                                           "both; " % payloads(tuple(reversed(cshape)), DIGITS))[mode],
                             payloads(cshape, ALPHA), payloads(sshape, BETA), what),
                         dict(shapes=[list(cshape), list(sshape)], mode=mode,
                              client_packets=[x.decode() for x in payloads(cshape, ALPHA)],
